@@ -590,11 +590,25 @@ func (w *World) Directed(i int) *AdminMsg {
 				_, err := w.csrv.UpdateStakingRewardParams(sdk.WrapSDKContext(ctx), m)
 				return err
 			}}
+	case 11: // uint64 -> int64 boundary: provider distribution modulo exactly 2^63 (accepted: only 0 is refused)
+		rate := new(big.Int).Div(pow18, big.NewInt(100))
+		m := &clptypes.MsgAddProviderDistributionPeriodRequest{Signer: adm, DistributionPeriods: []*clptypes.ProviderDistributionPeriod{{DistributionPeriodBlockRate: decOf(rate),
+			DistributionPeriodStartBlock: uint64(h), DistributionPeriodEndBlock: uint64(h + 5), DistributionPeriodMod: 1 << 63}}}
+		return &AdminMsg{kind: "AddProviderDistributionPeriod", desc: fmt.Sprintf("adm 1 %s %d %d %d", rate, h, h+5, uint64(1)<<63), shape: "mod.2p63", vb: m.ValidateBasic,
+			run: func(ctx sdk.Context) error {
+				_, err := w.csrv.AddProviderDistributionPeriod(sdk.WrapSDKContext(ctx), m)
+				return err
+			}}
+	case 12: // … and reward period modulo exactly 2^63
+		m := &clptypes.MsgAddRewardPeriodRequest{Signer: adm, RewardPeriods: []*clptypes.RewardPeriod{{RewardPeriodId: "x", RewardPeriodStartBlock: uint64(h), RewardPeriodEndBlock: uint64(h + 5),
+			RewardPeriodAllocation: &thousand, RewardPeriodDefaultMultiplier: &one, RewardPeriodMod: 1 << 63}}}
+		return &AdminMsg{kind: "AddRewardPeriod", desc: fmt.Sprintf("adm 1 0 %d %d 1000 %d 0 %s 0", h, h+5, uint64(1)<<63, pow18), shape: "mod.2p63", vb: m.ValidateBasic,
+			run: func(ctx sdk.Context) error { _, err := w.csrv.AddRewardPeriod(sdk.WrapSDKContext(ctx), m); return err }}
 	}
 	return nil
 }
 
-const nDirected = 11
+const nDirected = 13
 
 // GenLP: a valid UpdateLiquidityProtectionParams (active) with the given maximum and epoch length.
 func (w *World) GenLP(max uint64, epoch uint64) *AdminMsg {
